@@ -3,6 +3,7 @@
 package generic
 
 import (
+	"slices"
 	"strings"
 
 	"github.com/ohler55/slip"
@@ -214,15 +215,17 @@ func insertMethod(class, super slip.Class, method *slip.Method, combo *slip.Comb
 	if pos < len(m.Combinations) && m.Combinations[pos].From == class {
 		pos++
 	}
+	// Skip the combinations of the flavors that precede super in the
+	// precedence list. The new combination goes right after those.
 	for _, f := range class.InheritsList() {
-		if len(m.Combinations) <= pos || m.Combinations[pos].From == super {
+		if len(m.Combinations) <= pos || f == super {
 			break
 		}
 		if m.Combinations[pos].From == f {
 			pos++
 		}
 	}
-	m.Combinations = append(append(m.Combinations[:pos], combo), m.Combinations[pos:]...)
+	m.Combinations = slices.Insert(m.Combinations, pos, combo)
 }
 
 // DefCallerMethod defines a method for a caller.
